@@ -1531,7 +1531,7 @@ def run(ctx):
     cases = corpus_cases(ctx)
     ncorpus = len(cases)
     cases += gen_cases(rng, bud, sizes=(1, 2, 3, 4, 5, 7, 9, 12, 16, 24, 40) if ctx.quick else
-                       (1, 2, 3, 4, 5, 7, 9, 12, 16, 24, 40, 40, 100, 250))
+                       (1, 2, 3, 4, 5, 7, 9, 12, 16, 24, 40, 40, 64, 100))
     cases += gen_perm_cases(rng, perm_sizes)
     cases += gen_tol_cases(rng, ntol)
     n = 0
